@@ -317,7 +317,8 @@ func makeReplay(prop, tier string, v violation) *ReplayFile {
 	if bs, ok := v.Line.Extra["base_seed"].(uint64); ok {
 		rf.BaseSeed = bs
 	}
-	rf.TapeSeed = runSeed(rf.BaseSeed, prop, v.Line.I)
+	rf.Workload = v.Batch.Workload
+	rf.TapeSeed = runSeed(rf.BaseSeed, v.Batch.wl(prop), v.Line.I)
 	if v.Line.Tape != nil {
 		rf.Tape = *v.Line.Tape
 	} else {
@@ -417,7 +418,7 @@ func determinismSpot(b *builder, prop string, spec *propSpec, tier string, seed 
 		for k := 0; k < 2; k++ {
 			env := append([]string{}, bt.Env...)
 			env = append(env, []string{"GOMAXPROCS=16", "GOMAXPROCS=3"}[k])
-			po := runProc(bin, env, 5*time.Minute, "-prop", prop, "-seed", strconv.FormatUint(bseed, 10), "-from", "0", "-to", strconv.Itoa(n), "-tier", tier, "-cfg", cfgString(bt.Cfg), "-hashes")
+			po := runProc(bin, env, 5*time.Minute, "-prop", bt.wl(prop), "-seed", strconv.FormatUint(bseed, 10), "-from", "0", "-to", strconv.Itoa(n), "-tier", tier, "-cfg", cfgString(bt.Cfg), "-hashes")
 			var sb strings.Builder
 			for _, l := range po.lines {
 				if l.K == "h" {
